@@ -60,7 +60,8 @@ package core
 //@   ensures err != nil ==> len(ret) == 0
 
 //@ func findCertificateCandidatesFromKeyIdentifier
-//@   props C07 C04
+//@   props C07 C04 C02 C05
+//@   loop 2 body_ensures[C02,C04,C05] accepted_candidate_has_the_key_identifier: len(certificateCandidates) != old(len(certificateCandidates)) ==> called(FindExtension#1) && arg(FindExtension#1, 0) == extensionsupport.OidCertExtSubjectKeyId && called(ParseOctetString#1) && res(ParseOctetString#1, 1) == nil && called(Compare#1) && res(Compare#1) == 0 && arg(Compare#1, 0) == authorityKeyIdentifier.KeyIdentifier && arg(Compare#1, 1) == res(ParseOctetString#1, 0)
 //@   requires verifiedChains != nil && authorityKeyIdentifier != nil && chainsOK(verifiedChains)
 //@   assigns E.uint8, X.stream, X.spos, fresh:E.*core.CertificateChainEntry
 //@   ensures err == nil ==> forall k int :: 0 <= k && k < len(ret) ==> ret[k] != nil && ret[k].Certificate != nil && ret[k].RawCertificate != nil
@@ -71,7 +72,8 @@ package core
 //@   loop 2 invariant forall k int :: 0 <= k && k < len(certificateCandidates) ==> certificateCandidates[k] != nil && certificateCandidates[k].Certificate != nil && certificateCandidates[k].RawCertificate != nil
 
 //@ func findCertificateBySerialAndIssuer
-//@   props C07 C04
+//@   props C07 C04 C02 C05
+//@   loop 2 body_ensures[C02,C04,C05] accepted_candidate_matches_aki_issuer_and_serial: len(certificateCandidates) != old(len(certificateCandidates)) ==> called(ParseIssuerRDNSequence#1) && res(ParseIssuerRDNSequence#1, 1) == nil && arg(ParseIssuerRDNSequence#1, 0) == certCandidate.Certificate && big(certCandidate.Certificate.SerialNumber) == big(identifier.AuthorityCertSerialNumber) && called(ReadStruct#1) && rdnString(*res(ParseIssuerRDNSequence#1, 0)) == rdnString(*as(arg(ReadStruct#1, 1), *pkix.RDNSequence))
 //@   requires verifiedChains != nil && identifier != nil && identifier.AuthorityCertSerialNumber != nil && chainsOK(verifiedChains)
 //@   assigns E.uint8, X.stream, X.spos, fresh:E.*core.CertificateChainEntry
 //@   ensures err == nil ==> forall k int :: 0 <= k && k < len(ret) ==> ret[k] != nil && ret[k].Certificate != nil && ret[k].RawCertificate != nil
@@ -82,7 +84,8 @@ package core
 //@   loop 2 invariant forall k int :: 0 <= k && k < len(certificateCandidates) ==> certificateCandidates[k] != nil && certificateCandidates[k].Certificate != nil && certificateCandidates[k].RawCertificate != nil
 
 //@ func findCertificateCandidatesByIssuerAndAlgorithm
-//@   props C07 C04
+//@   props C07 C04 C02 C05
+//@   loop 2 body_ensures[C02,C04,C05] accepted_candidate_has_the_issuer_as_subject: len(certificateCandidates) != old(len(certificateCandidates)) ==> called(ParseSubjectRDNSequence#1) && res(ParseSubjectRDNSequence#1, 1) == nil && arg(ParseSubjectRDNSequence#1, 0) == certCandidate.Certificate && rdnString(*res(ParseSubjectRDNSequence#1, 0)) == rdnString(*issuer) && certCandidate.Certificate.PublicKeyAlgorithm == algorithmID
 //@   requires verifiedChains != nil && issuer != nil && chainsOK(verifiedChains)
 //@   assigns E.uint8, X.stream, X.spos, fresh:E.*core.CertificateChainEntry
 //@   ensures err == nil ==> forall k int :: 0 <= k && k < len(ret) ==> ret[k] != nil && ret[k].Certificate != nil && ret[k].RawCertificate != nil
